@@ -20,8 +20,10 @@ inline bool has_bucket(int k) { return k <= K_RPHTFC; }
 inline bool has_overhead(int k) { return k >= K_HASHHF; }
 
 static const int N_CLASSES = 6;  // quick; class 6 exists in thorough
-static const int n_lo[7] = {1, 2, 3, 9, 65, 601, 3001};
-static const int n_hi[7] = {1, 2, 8, 64, 600, 3000, 12000};
+// class 7 ("scale" stages): more than 2^17 strings, mostly more than 2^16 buckets and a text of 1-4 MB, so that 16-bit
+// quantities overflow and every buffer is reallocated with the default MEMALLOC
+static const int n_lo[8] = {1, 2, 3, 9, 65, 601, 3001, 140000};
+static const int n_hi[8] = {1, 2, 8, 64, 600, 3000, 12000, 280000};
 
 struct Params {
   int kind = 0;
@@ -160,12 +162,13 @@ inline std::vector<std::string> gen_strings(Src &s, int nclass, bool thorough, G
   // mostly fed that family, so that they are still explored where they work
   if (prefer_textlike && s.byte() % 4 != 3) family = 9;
   if (family == 7 && nclass < 5) family = 0;   // the big skewed text is a large-class shape
+  if (nclass == 7) { static const int big[] = {9, 1, 0, 9}; family = big[s.byte() % 4]; }   // text-like, numerals, incremental
   if (const char *ff = getenv("VERIF_FAMILY")) family = atoi(ff);  // development aid
   int lo = n_lo[nclass], hi = n_hi[nclass];
   size_t n = lo + s.below(hi - lo + 1);
   uint64_t seed = fnv(s.p, s.n);
   ProgSrc ps(s, seed, nclass >= 3);
-  size_t budget = thorough ? 600000 : 250000;  // text bytes
+  size_t budget = nclass == 7 ? 4000000 : thorough ? 600000 : 250000;  // text bytes
   gi.family = family; gi.asize = asize; gi.nclass = nclass;
   auto sym = [&]() -> char { return (char)A[ps.below(asize)]; };
 
